@@ -1741,6 +1741,51 @@ demux_pes_packet		(vbi_dvb_demux *	dx,
 
 /**
  * @internal
+ * @param dx DVB demultiplexer context.
+ *
+ * The PES packet collected from the TS in dx->pes_buffer is complete.
+ * Validates the header and if this is a VBI packet prepares for the
+ * extraction of the data units.
+ *
+ * @returns
+ * FALSE if this is not a valid VBI PES packet. The data collected so
+ * far for the current frame is discarded.
+ */
+static vbi_bool
+ts_pes_packet_complete		(vbi_dvb_demux *	dx)
+{
+	const uint8_t *p;
+	unsigned int left;
+
+	p = dx->pes_buffer;
+	left = dx->ts_pes_bp - dx->pes_buffer;
+
+	if (0)
+		log_block (dx, p, left);
+
+	if (!valid_vbi_pes_packet_header (dx, p)) {
+		/* Discard the data collected so far. */
+		dx->new_frame = TRUE;
+
+		dx->ts_frame_todo = 0;
+
+		return FALSE;
+	}
+
+	/* Start after data_identifier byte. */
+	dx->ts_frame_bp = dx->pes_buffer + 46;
+
+	/* Data units occupy packet length minus PES header
+	   length minus the data_identifier byte. */
+	dx->ts_frame_todo = left - 46;
+
+	dx->frame.n_data_units_extracted_from_packet = 0;
+
+	return TRUE;
+}
+
+/**
+ * @internal
  * @param src *src points to DVB PES data, will be incremented by the
  *   number of bytes read from the buffer. This pointer need not align
  *   with PES packet boundaries.
@@ -1836,43 +1881,10 @@ demux_ts_packet			(vbi_dvb_demux *	dx,
 			dx->ts_wrap.consume = 0;
 
 			if (0 == dx->ts_pes_todo) {
-				const uint8_t *p;
-				unsigned int left;
-
 				/* PES packet is complete, let's take
 				   a closer look at the header. */
-
-				p = dx->pes_buffer;
-				left = dx->ts_pes_bp - dx->pes_buffer;
-
-				if (0)
-					log_block (dx, p, left);
-
-				if (!valid_vbi_pes_packet_header (dx, p)) {
-					/* Discard the data collected
-					   so far. */
-					dx->new_frame = TRUE;
-
-					dx->ts_frame_todo = 0;
-
-					if (0) {
-						err = VBI_ERR_STREAM_SYNTAX;
-						goto error_return;
-					} else {
-						continue;
-					}
-				}
-
-				/* Start after data_identifier byte. */
-				dx->ts_frame_bp = dx->pes_buffer + 46;
-
-				/* Data units occupy packet length
-				   minus PES header length minus the
-				   data_identifier byte. */
-				dx->ts_frame_todo = left - 46;
-
-				dx->frame.n_data_units_extracted_from_packet =
-					0;
+				if (!ts_pes_packet_complete (dx))
+					continue;
 			}
 		}
 
@@ -2203,6 +2215,11 @@ demux_ts_packet			(vbi_dvb_demux *	dx,
 			lookahead = MIN (lookahead, TS_HEADER_LOOKAHEAD);
 			dx->ts_wrap.lookahead =
 				TS_HEADER_LOOKAHEAD - lookahead;
+
+			/* A PES packet no larger than the payload of
+			   one TS packet is already complete. */
+			if (0 == dx->ts_pes_todo)
+				ts_pes_packet_complete (dx);
 		}
 
 		continue;
